@@ -10,6 +10,7 @@ from . import Profile, COMPONENTS_COMMON
 from .. import catalog as C
 from .. import common as U
 from .. import storeworld as SW
+from .. import tsparse
 from ..core import Violation, call
 from ..seams import SimCrash
 
@@ -28,7 +29,7 @@ class C11(Profile):
     probes = ['older_version_added_after_newer', 'bundle_form', 'text_form', 'unregistered_dict_versioned',
               'save_dir_path', 'torn_write_then_restart', 'enospc_mid_list', 'exact_readd', 'read_under_torn_file',
               'save_load_compared', 'utf16_save', 'bundlify_store', 'fault_on_read_fired', 'mixed_versions_in_memory',
-              'add_resolved_by_observation']
+              'add_resolved_by_observation', 'same_instant_respelled']
     rule = ('plans: a pool of <=12 ids x <=5 versions (versioned SDO/SRO of 2.0 and 2.1, 2.1 SCOs, marking definitions, registered '
             'custom type, unregistered dict-kept type) and 5-40 ops (adds in every documented form to a MemoryStore and a '
             'FileSystemStore on the simulated disk, reads, save/load, restart, repair); every 5th run injects I/O faults / crashes. '
@@ -51,7 +52,7 @@ class C11(Profile):
             'fs_allow_custom': U.weighted(rng, [(True, 6), (None, 2), (False, 1)]),
             'bundlify': rng.random() < 0.25,
             'faults': faults,
-            'spelling_knob': rng.random() < 0.15,
+            'spelling_knob': rng.random() < 0.3,
         }
         n_ids = rng.randrange(2, 13)
         pool = SW.gen_pool(rng, index, n_ids, rng.choice([1, 2, 3, 5]), KINDS, digits_mixed=cfg['spelling_knob'])
@@ -75,7 +76,8 @@ class C11(Profile):
                         k = rng.choice(cand)
                         ver = pool[k]['ver']
                     j = rng.randrange(SW.n_versions(pool[k]))
-                    items.append({'k': k, 'j': j, 'as': rng.choice(['obj', 'dict'])})
+                    items.append({'k': k, 'j': j, 'as': rng.choice(['obj', 'dict']),
+                                  'respell': cfg['spelling_knob'] and rng.random() < 0.4})
                 op.update(store=store, form=form, items=items, pretty=rng.random() < 0.7, both=rng.random() < 0.3)
                 if faults and store == 'F' and rng.random() < 0.5:
                     op['fault'] = SW.gen_fault(rng, SW.WRITE_FAULTS, max_nth=min(3, n))
@@ -160,6 +162,13 @@ class C11(Profile):
             val, d = sw.make_input(k, j, form)
             if val is None:
                 return None, None
+            if it.get('respell') and pool[k]['kind'] == 'unreg' and isinstance(d.get('modified'), str):
+                # same instant, other spelling (the object is kept as a dict, so the text is what the store sees)
+                us, nd = tsparse.parse(d['modified'])
+                alt = tsparse.fmt(us, digits=6) if nd < 6 else tsparse.fmt(us)
+                d = dict(d, modified=alt)
+                val = json.dumps(d) if isinstance(val, str) else C._copy(d)
+                sw.world.probe('same_instant_respelled')
             items.append((val, d, k, j))
         f = op['form']
         if f == 'single':
